@@ -37,7 +37,8 @@ Record snap := mkSnap {
   sn_ledval : Z;                   (* value the LED hook returns now *)
   sn_fbw : Z; sn_fbh : Z;          (* screen (= scaledScreen) size *)
   sn_maxrects : Z; sn_cmw : Z; sn_cmh : Z;
-  sn_nscreens : Z                  (* numberOfExtDesktopScreensHook *)
+  sn_nscreens : Z;                 (* numberOfExtDesktopScreensHook *)
+  sn_bpp : Z                       (* cl->format.bitsPerPixel *)
 }.
 
 Definition hdr : Type := (Z * Z * Z * Z * Z)%type.     (* x y w h encoding *)
@@ -134,10 +135,13 @@ Definition plan_regions (c1 : caps) (s : sends) (sn : snap) : plan :=
          (rgn_iter (sn_dx sn >? 0) (sn_dy sn >? 0) ucopy).
 
 (* the count stage and the emission stage *)
-Definition render_update (c1 : caps) (s : sends) (sn : snap) (pl : plan) : caps * upd_out :=
+(* the count stage as it is in the source: with or without the repair of F5 *)
+Definition announce_sel (g : cfg) := if g_wrap_coalesce g then announce_fixed else announce.
+
+Definition render_update (g : cfg) (c1 : caps) (s : sends) (sn : snap) (pl : plan) : caps * upd_out :=
   let ncopy := Z.of_nat (length (pl_copy pl)) in
   let pref := c_pref c1 in
-  match announce pref (c_lastrect c1) (sn_cmw sn) (sn_cmh sn) (sn_maxrects sn) (pl_region pl) ncopy (n_pseudo s) with
+  match announce_sel g pref (c_lastrect c1) (sn_cmw sn) (sn_cmh sn) (sn_maxrects sn) (pl_region pl) ncopy (n_pseudo s) with
   | None => (c1, UTrap 1)
   | Some (n, region', lm) =>
       let c2 := if s_shape s then set_cursor_changed c1 false else c1 in
@@ -158,12 +162,22 @@ Definition newfb_update (c : caps) (sn : snap) : caps * upd_out :=
            else (0, 0, wire16 (sn_fbw sn), wire16 (sn_fbh sn), enc_NewFBSize) in
   (c1, USent 1 [PH h] false false).
 
-Definition model_update (g : cfg) (c : caps) (sn : snap) : caps * upd_out :=
+(* repair of F23 (top of rfbSendFramebufferUpdate): a client with a 24-bit pixel format gets Raw unless its
+   preferred encoding copies translated pixels verbatim *)
+Definition bpp24_prelude (g : cfg) (c : caps) (sn : snap) : caps :=
+  if g_raw_for_24bpp g && (sn_bpp sn =? 24) &&
+     negb ((c_pref c =? -1) || (c_pref c =? enc_Raw) || (c_pref c =? enc_Zlib) || (c_pref c =? enc_Ultra))
+  then set_pref c enc_Raw else c.
+
+Definition model_update_core (g : cfg) (c : caps) (sn : snap) : caps * upd_out :=
   if c_newfbsize c && c_fbpending c then newfb_update c sn
   else
     let sc := decide_sends g c (sn_ledval sn) in
     let pl := plan_regions (snd sc) (fst sc) sn in
-    if pl_nothing pl then (snd sc, UNone) else render_update (snd sc) (fst sc) sn pl.
+    if pl_nothing pl then (snd sc, UNone) else render_update g (snd sc) (fst sc) sn pl.
+
+Definition model_update (g : cfg) (c : caps) (sn : snap) : caps * upd_out :=
+  model_update_core g (bpp24_prelude g c sn) sn.
 
 (* number of headers the model predicts when nothing is data dependent *)
 Fixpoint phdr_count (l : list phdr) : option Z :=
